@@ -151,6 +151,14 @@ class RegExp:
     def sticky(self):
         return self._sticky
 
+    def set_poll_callback(self, poll_callback: Optional[Callable[[], bool]]) -> None:
+        """Replace the callback that is polled while matching.
+
+        A regex object can outlive the evaluation that created it; whoever
+        runs it next installs its own deadline here.
+        """
+        self._poll_callback = poll_callback
+
     def _create_vm(self) -> RegexVM:
         """Create a new VM instance."""
         return RegexVM(
